@@ -90,6 +90,9 @@ type inliner struct {
 	stuck   map[string]bool // short names of helpers that could not be fully inlined (left alone afterwards)
 	notes   []string
 	inlined map[string]int
+	// per call: imports of the callee whose name is shadowed at the call site -> alias under which the caller's
+	// file imports the package again
+	alias map[*types.PkgName]string
 }
 
 func (in *inliner) src(file string) []byte {
@@ -113,6 +116,55 @@ func (in *inliner) nodeText(n ast.Node) string {
 		return ""
 	}
 	return string(s[a:b])
+}
+
+// aliasEdits: edits that rewrite, inside [from,to), the uses of imports that are shadowed at the call site.
+func (in *inliner) aliasEdits(c *inlCand, root ast.Node) []textEdit {
+	if len(in.alias) == 0 || root == nil {
+		return nil
+	}
+	var es []textEdit
+	ast.Inspect(root, func(n ast.Node) bool {
+		if idn, ok := n.(*ast.Ident); ok {
+			if pn, ok := c.pkg.TypesInfo.Uses[idn].(*types.PkgName); ok {
+				if a, ok := in.alias[pn]; ok {
+					_, x := in.rawOff(idn.Pos())
+					_, y := in.rawOff(idn.End())
+					es = append(es, textEdit{x, y, a})
+				}
+			}
+		}
+		return true
+	})
+	return es
+}
+
+// calleeText renders a node of the callee's declaration (a type expression, a parameter list) for the call site.
+func (in *inliner) calleeText(c *inlCand, n ast.Node) string {
+	return in.calleeRange(c, n, n.Pos(), n.End())
+}
+
+func (in *inliner) calleeRange(c *inlCand, root ast.Node, a, b token.Pos) string {
+	f, x := in.rawOff(a)
+	_, y := in.rawOff(b)
+	src := in.src(f)
+	if x < 0 || y > len(src) || x > y {
+		return ""
+	}
+	es := in.aliasEdits(c, root)
+	sort.Slice(es, func(i, j int) bool { return es[i].off < es[j].off })
+	var sb strings.Builder
+	last := x
+	for _, e := range es {
+		if e.off < last || e.end > y {
+			continue
+		}
+		sb.Write(src[last:e.off])
+		sb.WriteString(e.text)
+		last = e.end
+	}
+	sb.Write(src[last:y])
+	return sb.String()
 }
 
 func (in *inliner) rangeText(a, b token.Pos) string {
@@ -227,7 +279,7 @@ func (in *inliner) round() (map[string][]textEdit, bool) {
 		return nil, false
 	}
 	edits := map[string][]textEdit{}
-	imports := map[string]map[string]string{} // file -> path -> local name to add
+	imports := map[string]map[string]string{} // file -> local name -> path to add
 	changed := false
 
 	// uses of each candidate (identifier uses other than its own declaration)
@@ -445,15 +497,15 @@ func (in *inliner) round() (map[string][]textEdit, bool) {
 		if af == nil || len(add) == 0 {
 			continue
 		}
-		var paths []string
-		for path := range add {
-			paths = append(paths, path)
+		var names []string
+		for name := range add {
+			names = append(names, name)
 		}
-		sort.Strings(paths)
+		sort.Strings(names)
 		var sb strings.Builder
 		sb.WriteString("; import (")
-		for _, path := range paths {
-			fmt.Fprintf(&sb, "%s %q; ", add[path], path)
+		for _, name := range names {
+			fmt.Fprintf(&sb, "%s %q; ", name, add[name])
 		}
 		sb.WriteString(")")
 		_, off := in.rawOff(af.Name.End())
@@ -618,6 +670,7 @@ func (in *inliner) inlineCall(p *packages.Package, file *ast.File, stack []ast.N
 		}
 	}
 	// free identifiers of the callee must mean the same thing at the call site
+	in.alias = map[*types.PkgName]string{}
 	if why := in.captureCheck(p, file, call, c, imports); why != "" {
 		return textEdit{}, nil, why
 	}
@@ -636,11 +689,11 @@ func (in *inliner) inlineCall(p *packages.Package, file *ast.File, stack []ast.N
 			if len(r.Names) == 1 {
 				name = r.Names[0].Name
 			}
-			params = append(params, name+" "+in.nodeText(r.Type))
+			params = append(params, name+" "+in.calleeText(c, r.Type))
 			args = append(args, recvExpr)
 		}
 		if c.fd.Type.Params != nil && len(c.fd.Type.Params.List) > 0 {
-			params = append(params, in.rangeText(c.fd.Type.Params.Opening+1, c.fd.Type.Params.Closing))
+			params = append(params, in.calleeRange(c, c.fd.Type.Params, c.fd.Type.Params.Opening+1, c.fd.Type.Params.Closing))
 		}
 		if len(call.Args) > 0 {
 			a := in.rangeText(call.Args[0].Pos(), call.Args[len(call.Args)-1].End())
@@ -651,7 +704,7 @@ func (in *inliner) inlineCall(p *packages.Package, file *ast.File, stack []ast.N
 		}
 		results := ""
 		if c.fd.Type.Results != nil {
-			results = " " + in.nodeText(c.fd.Type.Results)
+			results = " " + in.calleeText(c, c.fd.Type.Results)
 		}
 		kw := "go"
 		if _, ok := stmt.(*ast.DeferStmt); ok {
@@ -691,7 +744,7 @@ func (in *inliner) inlineCall(p *packages.Package, file *ast.File, stack []ast.N
 		if len(r.Names) == 1 {
 			name = r.Names[0].Name
 		}
-		addParam(name, in.nodeText(r.Type), nil, recvExpr, ai)
+		addParam(name, in.calleeText(c, r.Type), nil, recvExpr, ai)
 		ai++
 	}
 	type par struct {
@@ -701,10 +754,10 @@ func (in *inliner) inlineCall(p *packages.Package, file *ast.File, stack []ast.N
 	var pars []par
 	eachField(c.fd.Type.Params, func(name string, typ ast.Expr) {
 		if el, ok := typ.(*ast.Ellipsis); ok {
-			pars = append(pars, par{name, "[]" + in.nodeText(el.Elt), true})
+			pars = append(pars, par{name, "[]" + in.calleeText(c, el.Elt), true})
 			return
 		}
-		pars = append(pars, par{name, in.nodeText(typ), false})
+		pars = append(pars, par{name, in.calleeText(c, typ), false})
 	})
 	for i, pr := range pars {
 		if pr.variadic {
@@ -743,7 +796,7 @@ func (in *inliner) inlineCall(p *packages.Package, file *ast.File, stack []ast.N
 	// result temporaries live in the surrounding scope
 	var resTemps []string
 	var resTypes []string
-	eachField(c.fd.Type.Results, func(_ string, typ ast.Expr) { resTypes = append(resTypes, in.nodeText(typ)) })
+	eachField(c.fd.Type.Results, func(_ string, typ ast.Expr) { resTypes = append(resTypes, in.calleeText(c, typ)) })
 	for i := range resTypes {
 		resTemps = append(resTemps, tmp("r", i))
 	}
@@ -769,7 +822,7 @@ func (in *inliner) inlineCall(p *packages.Package, file *ast.File, stack []ast.N
 	eachField(c.fd.Type.Results, func(name string, typ ast.Expr) {
 		if name != "" && name != "_" {
 			hasNamedResults = true
-			fmt.Fprintf(&sb, "var %s %s; _ = %s; ", name, in.nodeText(typ), name)
+			fmt.Fprintf(&sb, "var %s %s; _ = %s; ", name, in.calleeText(c, typ), name)
 		}
 	})
 	prologue := sb.String() // "{ temporaries; parameters; "
@@ -1106,7 +1159,9 @@ func (in *inliner) continuationForm(p *packages.Package, stack []ast.Node, stmt 
 		return textEdit{}, nil, false
 	}
 	var ifs *ast.IfStmt
-	vname := "" // the variable the if statement binds the result to ("" when the call sits in the condition)
+	var condExpr ast.Expr     // the condition the continuation tests (the if's own, or what is left after peeling &&)
+	var outerConds []ast.Expr // peeled left operands, outermost first
+	vname := ""               // the variable the if statement binds the result to ("" when the call sits in the condition)
 	switch s := stmt.(type) {
 	case *ast.AssignStmt:
 		pi, ok := parent.(*ast.IfStmt)
@@ -1118,12 +1173,34 @@ func (in *inliner) continuationForm(p *packages.Package, stack []ast.Node, stmt 
 			return textEdit{}, nil, false
 		}
 		ifs, vname = pi, idn.Name
+		condExpr = pi.Cond
 	case *ast.IfStmt:
 		if s.Init != nil || !(s.Cond.Pos() <= call.Pos() && call.End() <= s.Cond.End()) {
 			return textEdit{}, nil, false
 		}
-		// the call must be the condition, possibly negated or parenthesised (evaluated exactly once, first)
+		// `if A && B(call) { body }` (no else) is `if A { if B(call) { body } }`: peel the operands evaluated before
+		condExpr = s.Cond
+		for {
+			e := condExpr
+			for {
+				if pe, ok := e.(*ast.ParenExpr); ok {
+					e = pe.X
+					continue
+				}
+				break
+			}
+			be, ok := e.(*ast.BinaryExpr)
+			if !ok || be.Op != token.LAND || s.Else != nil || !(be.Y.Pos() <= call.Pos() && call.End() <= be.Y.End()) {
+				break
+			}
+			outerConds = append(outerConds, be.X)
+			condExpr = be.Y
+		}
+		// the call must be the (remaining) condition, possibly negated or parenthesised (evaluated exactly once, first)
 		for _, b := range between {
+			if b.Pos() <= condExpr.Pos() && condExpr.End() <= b.End() && b != ast.Node(condExpr) {
+				continue // a peeled && (or the parentheses around it)
+			}
 			switch x := b.(type) {
 			case *ast.ParenExpr:
 			case *ast.UnaryExpr:
@@ -1142,7 +1219,7 @@ func (in *inliner) continuationForm(p *packages.Package, stack []ast.Node, stmt 
 	// unlabelled break, must not continue a loop when a return site is inside a helper loop, and must not mention
 	// a name the helper declares
 	var contNodes []ast.Node
-	contNodes = append(contNodes, ifs.Cond, ifs.Body)
+	contNodes = append(contNodes, condExpr, ifs.Body)
 	if ifs.Else != nil {
 		contNodes = append(contNodes, ifs.Else)
 	}
@@ -1194,8 +1271,114 @@ func (in *inliner) continuationForm(p *packages.Package, stack []ast.Node, stmt 
 		}
 		return true
 	})
+	// a parameter (or the receiver) bound to the very variable the continuation mentions, and never reassigned by the
+	// helper, shadows that variable with an equal value: harmless
+	sameValueParam := map[string]types.Object{}
+	{
+		bindArg := func(name string, arg ast.Expr) {
+			if name == "" || name == "_" || arg == nil {
+				return
+			}
+			for {
+				if pe, ok := arg.(*ast.ParenExpr); ok {
+					arg = pe.X
+					continue
+				}
+				break
+			}
+			aid, ok := arg.(*ast.Ident)
+			if !ok || aid.Name != name {
+				return
+			}
+			obj := info.Uses[aid]
+			if obj == nil {
+				return
+			}
+			reassigned := false
+			ast.Inspect(c.fd.Body, func(n ast.Node) bool {
+				switch x := n.(type) {
+				case *ast.AssignStmt:
+					for _, l := range x.Lhs {
+						if li, ok := l.(*ast.Ident); ok && li.Name == name {
+							if d := c.pkg.TypesInfo.Uses[li]; d != nil && d.Parent() != nil && d.Parent() != c.pkg.Types.Scope() {
+								reassigned = true
+							}
+							if c.pkg.TypesInfo.Defs[li] != nil {
+								reassigned = true // redeclared in an inner scope: keep it simple
+							}
+						}
+					}
+				case *ast.IncDecStmt:
+					if li, ok := x.X.(*ast.Ident); ok && li.Name == name {
+						reassigned = true
+					}
+				case *ast.UnaryExpr:
+					if li, ok := x.X.(*ast.Ident); ok && x.Op == token.AND && li.Name == name {
+						reassigned = true
+					}
+				case *ast.RangeStmt:
+					for _, e := range []ast.Expr{x.Key, x.Value} {
+						if li, ok := e.(*ast.Ident); ok && li.Name == name {
+							reassigned = true
+						}
+					}
+				}
+				return true
+			})
+			if !reassigned {
+				sameValueParam[name] = obj
+			}
+		}
+		if c.fd.Recv != nil && len(c.fd.Recv.List) == 1 && len(c.fd.Recv.List[0].Names) == 1 {
+			if sel, ok := call.Fun.(*ast.SelectorExpr); ok {
+				bindArg(c.fd.Recv.List[0].Names[0].Name, sel.X)
+			}
+		}
+		if c.fd.Type.Params != nil && !call.Ellipsis.IsValid() {
+			i := 0
+			for _, f := range c.fd.Type.Params.List {
+				for _, nm := range f.Names {
+					if i < len(call.Args) {
+						if _, variadic := f.Type.(*ast.Ellipsis); !variadic {
+							bindArg(nm.Name, call.Args[i])
+						}
+					}
+					i++
+				}
+				if len(f.Names) == 0 {
+					i++
+				}
+			}
+		}
+	}
 	clash := false
 	for _, n := range contNodes {
+		// the continuation must not assign to a variable that is shadowed by an equal-valued parameter
+		ast.Inspect(n, func(m ast.Node) bool {
+			switch x := m.(type) {
+			case *ast.AssignStmt:
+				for _, l := range x.Lhs {
+					if li, ok := l.(*ast.Ident); ok {
+						if _, sh := sameValueParam[li.Name]; sh {
+							clash = true
+						}
+					}
+				}
+			case *ast.IncDecStmt:
+				if li, ok := x.X.(*ast.Ident); ok {
+					if _, sh := sameValueParam[li.Name]; sh {
+						clash = true
+					}
+				}
+			case *ast.UnaryExpr:
+				if li, ok := x.X.(*ast.Ident); ok && x.Op == token.AND {
+					if _, sh := sameValueParam[li.Name]; sh {
+						clash = true
+					}
+				}
+			}
+			return true
+		})
 		ast.Inspect(n, func(m ast.Node) bool {
 			idn, ok := m.(*ast.Ident)
 			if !ok {
@@ -1203,6 +1386,9 @@ func (in *inliner) continuationForm(p *packages.Package, stack []ast.Node, stmt 
 			}
 			o := info.Uses[idn]
 			if o == nil {
+				return true
+			}
+			if same, ok := sameValueParam[idn.Name]; ok && same == o {
 				return true
 			}
 			if v, ok := o.(*types.Var); ok && v.IsField() {
@@ -1237,7 +1423,7 @@ func (in *inliner) continuationForm(p *packages.Package, stack []ast.Node, stmt 
 		return ok && idn.Name == vname
 	}
 	isNil := func(e ast.Expr) bool { tv, ok := info.Types[e]; return ok && tv.IsNil() }
-	cond := ifs.Cond
+	cond := condExpr
 	for {
 		if pe, ok := cond.(*ast.ParenExpr); ok {
 			cond = pe.X
@@ -1273,19 +1459,24 @@ func (in *inliner) continuationForm(p *packages.Package, stack []ast.Node, stmt 
 	if ifs.Else != nil {
 		elseText = in.dir(ifs.Else.Pos()) + in.nodeText(ifs.Else)
 	}
-	var condText string
-	if vname != "" {
-		condText = in.dir(ifs.Cond.Pos()) + in.nodeText(ifs.Cond)
-	} else {
-		condText = in.dir(ifs.Cond.Pos()) + in.rangeText(ifs.Cond.Pos(), call.Pos()) + tmpName + in.dir(call.End()) + in.rangeText(call.End(), ifs.Cond.End())
+	// condWith renders the condition with the call replaced by repl
+	condWith := func(repl string) string {
+		if vname != "" {
+			return in.dir(condExpr.Pos()) + in.nodeText(condExpr)
+		}
+		return in.dir(condExpr.Pos()) + in.rangeText(condExpr.Pos(), call.Pos()) + repl + in.dir(call.End()) + in.rangeText(call.End(), condExpr.End())
 	}
-	fullIf := "if " + condText + " " + thenText
-	if elseText != "" {
-		fullIf += " else " + elseText
+	ifWith := func(repl string) string {
+		t := "if " + condWith(repl) + " " + thenText
+		if elseText != "" {
+			t += " else " + elseText
+		}
+		return t
 	}
+	fullIf := ifWith(tmpName)
 	resType := ""
 	if c.fd.Type.Results != nil && len(c.fd.Type.Results.List) == 1 {
-		resType = in.nodeText(c.fd.Type.Results.List[0].Type)
+		resType = in.calleeText(c, c.fd.Type.Results.List[0].Type)
 	}
 	if resType == "" {
 		return textEdit{}, nil, false
@@ -1365,7 +1556,7 @@ func (in *inliner) continuationForm(p *packages.Package, stack []ast.Node, stmt 
 		switch {
 		case len(ret.Results) == 1:
 			e = ret.Results[0]
-			etext = in.nodeText(e)
+			etext = in.calleeText(c, e)
 		case len(ret.Results) == 0 && namedRes != "":
 			etext = namedRes
 		default:
@@ -1410,6 +1601,11 @@ func (in *inliner) continuationForm(p *packages.Package, stack []ast.Node, stmt 
 			}
 			return "{ " + bind + "break " + label + " }", ""
 		}
+		if vname == "" && e != nil {
+			// the result is only tested: test the returned expression itself (no temporary, the branch structure of
+			// `a && b` stays a branch structure)
+			return "{ " + ifWith("("+etext+")") + "; break " + label + " }", ""
+		}
 		return "{ " + bind + fullIf + "; break " + label + " }", ""
 	}
 	bodyText, nReturns, why := in.bodyText(c, id, rewrite)
@@ -1417,6 +1613,9 @@ func (in *inliner) continuationForm(p *packages.Package, stack []ast.Node, stmt 
 		return textEdit{}, nil, false
 	}
 	text := wrapBody(bodyText, nReturns)
+	for i := len(outerConds) - 1; i >= 0; i-- {
+		text = "if " + in.dir(outerConds[i].Pos()) + in.nodeText(outerConds[i]) + " { " + text + " }"
+	}
 	_, a := in.rawOff(ifs.Pos())
 	_, b := in.rawOff(ifs.End())
 	return textEdit{a, b, text + in.dir(ifs.End())}, ifs, true
@@ -1481,6 +1680,19 @@ func (in *inliner) bodyText(c *inlCand, id int, rewrite func(ret *ast.ReturnStmt
 	if why != "" {
 		return "", 0, why
 	}
+	// imports shadowed at the call site are reached through their alias; identifiers inside rewritten returns are
+	// part of the replacement text already rendered by the rewriter, so only edits outside them are kept
+	for _, ae := range in.aliasEdits(c, c.fd.Body) {
+		inside := false
+		for _, e := range es {
+			if ae.off >= e.off && ae.end <= e.end {
+				inside = true
+			}
+		}
+		if !inside {
+			es = append(es, ae)
+		}
+	}
 	sort.Slice(es, func(i, j int) bool { return es[i].off < es[j].off })
 	var sb strings.Builder
 	last := bo
@@ -1521,7 +1733,7 @@ func (in *inliner) resultTempRewrite(c *inlCand, id, nres int) func(ret *ast.Ret
 			}
 			return "{ " + strings.Join(resTemps, ", ") + " = " + strings.Join(named, ", ") + "; break " + label + " }", ""
 		default:
-			return "{ " + strings.Join(resTemps, ", ") + " = " + in.rangeText(x.Results[0].Pos(), x.Results[len(x.Results)-1].End()) + "; break " + label + " }", ""
+			return "{ " + strings.Join(resTemps, ", ") + " = " + in.calleeRange(c, x, x.Results[0].Pos(), x.Results[len(x.Results)-1].End()) + "; break " + label + " }", ""
 		}
 	}
 }
@@ -1552,9 +1764,20 @@ func (in *inliner) captureCheck(p *packages.Package, callerFile *ast.File, call 
 			}
 			switch o := obj.(type) {
 			case *types.PkgName:
+				aliasFor := func() {
+					name := "_inlp_" + o.Name()
+					if imports[callerFileName] == nil {
+						imports[callerFileName] = map[string]string{}
+					}
+					imports[callerFileName][name] = o.Imported().Path()
+					in.alias[o] = name
+				}
+				if _, done := in.alias[o]; done {
+					return true
+				}
 				if callerFileName == calleeFileName {
 					if _, at := scope.LookupParent(idn.Name, call.Pos()); at != obj {
-						why = "identifier " + idn.Name + " means something else at the call site"
+						aliasFor() // the import's name is shadowed by a local declaration at the call site
 					}
 					return true
 				}
@@ -1567,27 +1790,21 @@ func (in *inliner) captureCheck(p *packages.Package, callerFile *ast.File, call 
 					} else {
 						pn, _ = info.Implicits[is].(*types.PkgName)
 					}
-					if pn != nil && pn.Imported() == o.Imported() {
-						if pn.Name() != o.Name() {
-							why = "package " + o.Imported().Path() + " is imported under another name in the caller's file"
-							return false
+					if pn != nil && pn.Imported() == o.Imported() && pn.Name() == o.Name() {
+						if _, at := scope.LookupParent(idn.Name, call.Pos()); at == pn {
+							found = true
 						}
-						if _, at := scope.LookupParent(idn.Name, call.Pos()); at != pn {
-							why = "identifier " + idn.Name + " means something else at the call site"
-							return false
-						}
-						found = true
 					}
 				}
 				if !found {
 					if _, at := scope.LookupParent(idn.Name, call.Pos()); at != nil {
-						why = "identifier " + idn.Name + " is taken at the call site"
-						return false
+						aliasFor() // imported under another name, or the name is taken at the call site
+						return true
 					}
 					if imports[callerFileName] == nil {
 						imports[callerFileName] = map[string]string{}
 					}
-					imports[callerFileName][o.Imported().Path()] = o.Name()
+					imports[callerFileName][o.Name()] = o.Imported().Path()
 				}
 			default:
 				par := obj.Parent()
